@@ -2,6 +2,7 @@
 # Run the pinned suite on /repo's HEAD in a scratch worktree (so /repo can keep changing). Result: /tmp/suite-<sha>.log
 SHA=$(git -C /repo rev-parse --short HEAD)
 W=/tmp/suite
-if [ -d $W ]; then git -C $W checkout -q --detach $SHA; else git -C /repo worktree add -q --detach $W $SHA; fi
+if [ -d $W ]; then git -C $W checkout -q -f --detach $SHA; else git -C /repo worktree add -q --detach $W $SHA; fi
+[ "$(git -C $W rev-parse --short HEAD)" = "$SHA" ] && git -C $W diff --quiet || { echo "suite worktree is not a clean checkout of $SHA" > /tmp/suite-$SHA.log; exit 2; }
 cd $W && CARGO_NET_OFFLINE=true cargo nextest run --workspace --no-fail-fast --offline --test-threads 8 > /tmp/suite-$SHA.full 2>&1
 grep -E "Summary|^\s+FAIL|error(\[|:)" /tmp/suite-$SHA.full | sort | uniq > /tmp/suite-$SHA.log
